@@ -360,7 +360,7 @@ func Equal(r1, r2 Resource) bool {
 
 	for i, rel1 := range r1Rels {
 		rel2 := r2Rels[i]
-		if rel1.ToOne != rel2.ToOne {
+		if rel1.FromName != rel2.FromName || rel1.ToOne != rel2.ToOne {
 			return false
 		}
 
